@@ -97,9 +97,13 @@ class WrappingMatcher(mcore.Matcher):
         self.child.next()
 
     def supports_block_quality(self):
-        return self.child.supports_block_quality()
+        # With a negative boost the child's upper bounds become lower bounds
+        return self.boost >= 0 and self.child.supports_block_quality()
 
     def skip_to_quality(self, minquality):
+        if not self.boost > 0:
+            # All scores are 0: nothing to gain from the child's qualities
+            return 0
         return self.child.skip_to_quality(minquality / self.boost)
 
     def max_quality(self):
